@@ -627,6 +627,34 @@ class SegyScn(Scenario):
             c.run(out, bits_per_voxel=4)
 
 
+class SegyIrregScn(Scenario):
+    """irregular (unstructured) SEG-Y through the inferred-geometry route; for n = 3 the MIDDLE plane set carries no trace at
+    all (inlines 5..8 absent): every plane set is still one item through both queues, in order"""
+    route = 'segy-irr'
+
+    def __init__(self, n, rnd):
+        self.n = n
+        n_il, n_xl = 4 * n, rnd.choice([4, 5])
+        self.shape = (n_il, n_xl, rnd.choice([8, 11]))
+        self.data = rnd_cube(rnd, self.shape)
+        present = np.ones((n_il, n_xl), dtype=bool)
+        if n == 3:
+            present[4:8, :] = False
+        present[min(1, n_il - 1), n_xl - 2] = False          # one more hole: segyio must see an unstructured file
+        self.tag = 'x'.join(map(str, self.shape)) + ('-gap' if n == 3 else '')
+        self.sgy = os.path.join(TMP, f'inirr_{n}_{self.tag}.sgy')
+        mk_segy(self.sgy, self.data, np.arange(1, 1 + n_il), np.arange(20, 20 + n_xl), present=present)
+
+    def force_cap(self, cap):
+        return None
+
+    def run(self, out, cap):
+        with SegyConverter(self.sgy) as c:
+            inline_set_bytes = 4 * self.shape[1] * self.shape[2] * 4
+            c.mem_limit = 2 * cap * inline_set_bytes + (inline_set_bytes if cap < 16 else 10 ** 12)
+            c.run(out, bits_per_voxel=4)
+
+
 class Segy2dScn(Scenario):
     route = 'segy2d'
 
@@ -896,7 +924,7 @@ def main():
     if a.replay:
         rp = json.load(open(a.replay))
         inp = rp.get('input', {})
-    routes = {'numpy': NumpyScn, 'segy': SegyScn, 'segy2d': Segy2dScn, 'segy2d-b4': Segy2dB4Scn}
+    routes = {'numpy': NumpyScn, 'segy': SegyScn, 'segy2d': Segy2dScn, 'segy2d-b4': Segy2dB4Scn, 'segy-irr': SegyIrregScn}
     scns = {}
     for n in (1, 2, 3):
         for rname, cls in routes.items():
